@@ -117,7 +117,9 @@ def gen_case(rng, root):
         params["KW"] = rng.choice(["ALLOW", "allow", "ALLOW", "BOGUS"])
         used["PAT"], used["KW"] = params["PAT"], params["KW"]
     if "expected_command" in where:
-        last["expected_command"] = ["do", "{ARG}"]
+        # (sometimes beside a positional field, as in `find -exec ... {} ;`: such a field has no value - the string does not
+        #  render, verification fails; it is not left as it is, with the named placeholder unreplaced)
+        last["expected_command"] = ["do", rng.choice(["{ARG}", "{ARG}", "{ARG}", "{}{ARG}", "{0}/{ARG}", "{ARG} {}"])]
         params["ARG"] = rng.choice(VALUES)
         used["ARG"] = params["ARG"]
     mode = rng.choice(["ok", "ok", "ok", "missing", "extra", "bad_name", "nonstr", "none"])
